@@ -88,6 +88,9 @@ def run(chk):
     chk.cov["traces_validated_against_impl"] = total
     with open(chk.path("rec_into_inner.ndjson")) as f:
         chk.cov["samples"].append({"source": "recorded run", "events": [json.loads(next(f)) for _ in range(16)]})
+    if chk.tier == "thorough":
+        # beyond TLC's bounds: inductive invariant by Apalache (any sets of <= 8 processes) + TLAPS proof (any size); recorded, never decides
+        vlib.run_unbounded(chk, "recoverable")
     chk.cov["rule"] = ("TLC: all interleavings of 3-4 emitters x 2-3 calls with into_inner / handle drop at the upgrade, call, release, "
                        "try_unwrap steps (+ termination under fairness); implementation: scheduled runs (distinct = distinct event "
                        "sequences), TLC schedules replayed, install path in fresh processes, real-parallel runs")
